@@ -18,7 +18,7 @@ def run(ctx):
                 "and fractional outlines (bound 1/214) are compared by the harness on the independently tokenized program.")
     ctx.assumptions = ["dictionary entries are extracted from the independent token stream by the '/key value def' pattern of "
                        "the Type 1 book, not by executing the program (the program is executed by the library's own reader in C09)"]
-    n = 24 if ctx.tier == "quick" else 400
+    n = 24 if ctx.tier == "quick" else 3000
     r = tvcommon.run_tv(ctx, "trace-t1write", [n, ctx.seed], "TraceT1Write", "Holds", "file", sigfn=sig8,
                         what="the written file is not a conforming description of the font (TraceT1Write)", neg=False)
     ctx.extra["glyph_events"] = r["glyph_events"]
